@@ -919,12 +919,23 @@ class AllLabellings(Family):
         for _ in range(25 if tier == "quick" else 150):
             n = rng.randrange(4, 6 if tier == "quick" else 7)
             yield {"tree": random_topology(rng, range(n))}
+        # shapes whose children fall into >= 2 shape groups that EACH admit more than one
+        # labelling (first possible at 7 leaves): the order of the two nested enumeration loops
+        # of label_all_groups is only visible here.  Bounded slice of the enumeration.
+        for t in ([[0, [1, 2]], [3, [4, [5, 6]]]], [[0, [1, 2]], [[3, 4], [5, 6]]],
+                  [[0, [1, 2]], [3, 4, [5, 6]]], [[0, [1, 2]], [3, [4, 5, 6]]],
+                  [[0, 1], [2, 3], [4, [5, 6]]],
+                  [[0, [1, 2]], [3, [4, [5, [6, 7]]]]], [[0, 1], [2, 3], [4, [5, [6, 7]]]]):
+            yield {"tree": canon(t)[0], "limit": 300 if tier == "quick" else 3000}
 
     def observe(self, case):
         import tskit
         t = build_tree(case["tree"])
         trees, ranks = [], []
-        for x in tskit.all_tree_labellings(t):
+        gen = tskit.all_tree_labellings(t)
+        if case.get("limit"):
+            gen = itertools.islice(gen, case["limit"])
+        for x in gen:
             trees.append(nested_of_tree(x))
             r = x.rank()
             ranks.append([int(r[0]), int(r[1])])
@@ -935,7 +946,8 @@ class AllLabellings(Family):
         out = []
         t = case["tree"]
         fz = [freeze(x) for x in obs["trees"]]
-        if (len(set(fz)) != len(fz) or len(fz) != n_labellings_of(t)
+        want_n = n_labellings_of(t) if not case.get("limit") else min(case["limit"], n_labellings_of(t))
+        if (len(set(fz)) != len(fz) or len(fz) != want_n
                 or any(shape_of(x) != shape_of(t) for x in obs["trees"])
                 or any(sorted(leaves_of(x)) != sorted(leaves_of(t)) for x in obs["trees"])):
             out.append(("all-labellings-not-exactly-once", "%r: %d listed, %d distinct, n!/|Aut| = %d" % (t, len(fz), len(set(fz)), n_labellings_of(t))))
@@ -944,6 +956,13 @@ class AllLabellings(Family):
         return out
 
     def coq_check(self, case, obs):
+        if case.get("limit") and len(leaves_of(case["tree"])) > 7 and case["limit"] <= 300:
+            return None          # quick: the 8-leaf shapes are checked by the oracle only
+        if case.get("limit"):
+            # the model enumerates in the same order: compare the first 48 trees
+            k = min(48, len(obs["trees"]))
+            return ("match all_tree_labellings (%s) with Ok l => list_eqb pt_eqb (map pt_canon (firstn %s l)) [%s] | _ => false end"
+                    % (cpt(obs["order"]), cn(k), "; ".join(cpt(x) for x in obs["trees"][:k])))
         if len(obs["trees"]) > 130:
             return ("match all_tree_labellings (%s) with Ok l => (Z.of_nat (length l) =? %s) && opt_eqb pt_eqb (option_map pt_canon (nth_error l 77)) (Some (%s)) | _ => false end"
                     % (cpt(obs["order"]), cz(len(obs["trees"])), cpt(obs["trees"][77])))
